@@ -153,6 +153,8 @@ StartEndStepIdx(f, n) ==
      ELSE IF st > 0 THEN Up(s, e, st, n) ELSE Down(s, e, st, n)
 
 \* ------------------------------------------------------------------ filters (small menu; full scripts are C12)
+NormA(i, n) == IF i < 0 THEN n + i ELSE i
+InRangeA(i, n) == "a" \in DOMAIN n /\ NormA(i, Len(n.a)) >= 0 /\ NormA(i, Len(n.a)) < Len(n.a)
 \* the values a sub-path `@.k<fr>` of a script yields, fr = wildcard or a (strict-region) slice
 SubVals(fr, n) == IF fr.f = "wild" THEN (IF IsArr(n) THEN n.a ELSE IF IsObj(n) THEN n.o ELSE <<>>)
                   ELSE IF IsArr(n) THEN LET ix == SliceIdx(fr, Len(n.a)) IN [j \in 1..Len(ix) |-> n.a[ix[j] + 1]] ELSE <<>>
@@ -174,8 +176,18 @@ NumK(n) == IF "i" \in DOMAIN n THEN 0 ELSE n.fq[2]
 NumLt(x, y) == NumN(x) * Pow2(NumK(y)) < NumN(y) * Pow2(NumK(x))
 NumCmpOp(cmp, x, y) == IsNum(x) /\ IsNum(y) /\
                        CASE cmp = "lt" -> NumLt(x, y) [] cmp = "gt" -> NumLt(y, x) [] cmp = "le" -> ~NumLt(y, x) [] OTHER -> ~NumLt(x, y)
+\* the values of a sub-path `<base><fr>`, fr a wildcard, slice or index-union fragment
+FragVals(fr, n) == IF fr.f = "union" THEN LET its == SelectSeq(fr.items, LAMBDA u : ~IsK(u) /\ InRangeA(u.i, n)) IN
+                                          [j \in 1..Len(its) |-> n.a[NormA(its[j].i, Len(n.a)) + 1]]
+                   ELSE SubVals(fr, n)
+(* "mc" `@.key<fr> <cmp> c` (sw: `c <cmp> @.key<fr>`), cmp eq / ne, c a scalar constant: a MULTI-valued `@` operand whose values may be       *)
+(* look-alikes of different kinds (1 and "1", true and "true", null and "<nil>"): any-pair semantics, values of different kinds are unequal,    *)
+(* an operand that selects nothing is Nothing (spec/Script.tla).                                                                              *)
 FilterTrue(f, e) ==
-  CASE f.op = "cmps" -> IF f.sw THEN NumCmpOp(f.cmp, f.c, e) ELSE NumCmpOp(f.cmp, e, f.c)
+  CASE f.op = "mc" -> LET vs == IF HasKey(e, f.key) THEN FragVals(f.fr, Member(e, f.key)) ELSE <<>>
+                          L == IF vs = <<>> THEN << [n |-> 0] >> ELSE vs IN
+                      \E i \in 1..Len(L) : IF f.cmp = "eq" THEN L[i] = f.c ELSE L[i] # f.c
+    [] f.op = "cmps" -> IF f.sw THEN NumCmpOp(f.cmp, f.c, e) ELSE NumCmpOp(f.cmp, e, f.c)
     [] f.op = "cmpk" -> HasKey(e, f.key) /\ (IF f.sw THEN NumCmpOp(f.cmp, f.c, Member(e, f.key)) ELSE NumCmpOp(f.cmp, Member(e, f.key), f.c))
     [] f.op = "eqnull" -> HasKey(e, f.key) /\ Member(e, f.key) = [z |-> 0]
     [] f.op = "nenull" -> ~(HasKey(e, f.key) /\ Member(e, f.key) = [z |-> 0])
